@@ -459,6 +459,36 @@ def cases(which):
             fr = G.sum_over(S, lambda s: target(0, s) * re_(s) + target(1, s) * im_(s))
             fi = G.sum_over(S, lambda s: target(0, s) * im_(s) - target(1, s) * re_(s))
             return G.build((), lambda: (fr * fr + fi * fi) * G.fn("inv", Z))
+        def fix_metrics(t, sizes, rnd):
+            # preconditions of the metrics: the space holds distinct rows and every sample is one of them (so that
+            # p(v)/Z <= 1); the target is a normalised state with non-zero probabilities
+            import numpy as np
+            S_, nv_ = t["space"].shape
+            rows = []
+            for s in range(S_):
+                r = tuple(int(x) for x in t["space"][s])
+                k = 0
+                while r in rows and k < 2 ** nv_:
+                    r = tuple((k >> q) & 1 for q in range(nv_))
+                    k += 1
+                rows.append(r)
+            t["space"] = np.array(rows, dtype=float).reshape(S_, nv_)
+            if "samples" in t:
+                t["samples"] = np.array([rows[rnd.randrange(S_)] for _ in range(t["samples"].shape[0])], dtype=float).reshape(-1, nv_)
+            if "target" in t:
+                tg = t["target"]
+                if tg.ndim == 2:
+                    tg = tg + np.where(np.abs(tg) < 0.1, 0.3, 0.0)
+                    t["target"] = tg / np.sqrt((tg ** 2).sum())
+                else:
+                    a = tg[0] + 1j * tg[1]
+                    rho = a @ a.conj().T + 0.1 * np.eye(S_)
+                    rho = rho / np.trace(rho).real
+                    t["target"] = np.stack([rho.real, rho.imag])
+            return t
+        for c_ in out:
+            if c_.name.startswith(("NLL[", "KL[")):
+                c_.fix = fix_metrics
         add("fidelity[positive wavefunction]", P_BIN + [("target", (2, S), "real")] + SP,
             lambda target, space, **p: ts.fidelity(pwf2(**p), target, space), fid_spec)
         add("fidelity[complex wavefunction]", P_BIN + P_PH + [("target", (2, S), "real")] + SP,
